@@ -163,7 +163,20 @@ pub fn run_pmt(body: &[u8]) -> Vec<u64> {
         Err(DemuxError::NotEnoughData { field, expected, actual }) => {
             v.extend([1, if field == "program_map_section" { 0 } else if field == "descriptor" { 1 } else { 9 }, expected as u64, actual as u64]);
         }
-        Ok(p) => { v.push(0); obs_pmt_section(&p, &mut v); }
+        Ok(p) => {
+            v.push(0); obs_pmt_section(&p, &mut v);
+            // answers must not depend on what was asked before (see obs::run_af): the same value again, and a second value
+            // asked back to front first (last stream first; descriptors before PID before type; PCR PID last)
+            let mut again = vec![0]; obs_pmt_section(&p, &mut again);
+            let mut rev = vec![0];
+            if let Ok(q) = PmtSection::from_bytes(body) {
+                let ss: Vec<_> = q.streams().collect();
+                for s in ss.iter().rev() { let _ = s.descriptors::<CoreDescriptors<'_>>().count(); let _ = s.elementary_pid(); let _ = s.stream_type(); }
+                let _ = q.descriptors::<CoreDescriptors<'_>>().count(); let _ = q.pcr_pid();
+                obs_pmt_section(&q, &mut rev);
+            }
+            return crate::obs::stable(v, again, rev);
+        }
     }
     v
 }
